@@ -748,7 +748,15 @@ def check_e2e(sample, acl_safe, dont_commit, report):
         if rows != sent and not dont_commit:
             cause = "other"
             # the displayed patch may repeat a command at one level; the command stream is keyed by path (known)
-            if len(sent) < len(rows) and [r for r in rows if r in set(sent)] != [] and set(rows) == set(sent):
+            # (precisely: the command stream is the displayed rows in order with nothing but repeats of an earlier row left out)
+            ptr, before, only_repeats_left_out = 0, set(), True
+            for r in rows:
+                if ptr < len(sent) and r == sent[ptr]:
+                    ptr += 1
+                elif r not in before:
+                    only_repeats_left_out = False
+                before.add(r)
+            if len(sent) < len(rows) and only_repeats_left_out and ptr == len(sent):
                 cause = "a command repeated at one level of the displayed patch is sent once (path-keyed cmd_paths)"
             report({"kind": "shown-vs-sent", "part": "E", "cause": cause}, case,
                    "annet patch rows=%r deploy job commands=%r" % (rows, sent))
